@@ -30,6 +30,8 @@ func TestCheck(t *testing.T) {
 		exitCode = runC03read(t, run)
 	case "C04":
 		exitCode = runC04parser(t, run)
+	case "C09":
+		exitCode = runC09wiring(t, run)
 	case "C01":
 		exitCode = runC01parser(t, run)
 	case "C14":
